@@ -868,6 +868,8 @@ class BuilderSim:
             ctx.sched.append(a.id)
             if self.fault_hook is not None and self.fault_hook(self, a, steps):
                 return False
+            if self.features.get("refusals") and ch.coin(1, 12, "refused-request"):
+                self.refused_request(a)
             if isinstance(a, Actor):
                 self.actor_step(a, drain)
             else:
@@ -880,6 +882,52 @@ class BuilderSim:
 
     after_step = None
     fault_hook = None
+
+    def refused_request(self, a):
+        """A request the builders refuse *before changing anything* (on the tree as it stands); the caller catches the
+        error and the program goes on.  Nothing may be left behind that makes the rest of the program misbehave."""
+        ch = self.ctx.ch
+        t = T()
+        from hugr.build.tracked_dfg import TrackedDfg
+        opts = []
+        if isinstance(a, CondCtl):
+            n = len(a.sum_ty.variant_rows)
+            opts.append(("add_case(out of range)", lambda: a.b.add_case(n + 1)))
+            built = [k for k in range(n) if k not in a.pending]
+            if built:
+                opts.append(("add_case(built)", lambda: a.b.add_case(built[0])))
+            if a.pending:
+                opts.append(("leave context with unbuilt cases", lambda: a.b.__exit__(None, None, None)))
+        if isinstance(a, Actor):
+            polys = [f for f in self.funcs if f["sig"] is not None and f["sig"].params]
+            if polys:
+                f = polys[0]
+                opts.append(("load_function(poly) without instantiation", lambda: a.b.load_function(f["node"])))
+                opts.append(("call(poly) without instantiation", lambda: a.b.call(f["node"])))
+            if self.consts:
+                c = self.consts[0][0]
+                opts.append(("call(<Const>)", lambda: a.b.call(c)))
+            if not isinstance(a.b, TrackedDfg):
+                opts.append(("add(Noop(0)) in an untracked builder", lambda: a.b.add(t.ops.Noop()(0))))
+            else:
+                bad = len(a.b.tracked) + 3
+                opts.append(("add(Noop(untracked index))", lambda: a.b.add(t.ops.Noop()(bad))))
+                opts.append(("untrack_wire(untracked index)", lambda: a.b.untrack_wire(bad)))
+            if a.kind == "func" and a.required is not None and a.open_children == 0 and not any(w.var for w in a.pool):
+                opts.append(("Function.set_outputs() with no wires although outputs are declared", (lambda: a.b.set_outputs()) if a.required else None))
+        opts = [o for o in opts if o[1] is not None]
+        if not opts:
+            return
+        name, fn = opts[ch.draw(len(opts), "which-refusal")]
+        try:
+            fn()
+            outcome = "returned"  # judged by C13, not here; the program is no longer well-formed
+        except Exception as e:  # noqa: BLE001
+            outcome = type(e).__name__
+        self.ctx.ev(getattr(a, "id", 0), "REFUSED:" + name, None, outcome, fault="refused-request")
+        self.ctx.fault("refused_request_then_continue")
+        if outcome == "returned":
+            raise Discard("refused-request-was-accepted")
 
     def actor_step(self, a: Actor, drain: bool):
         ch = self.ctx.ch
